@@ -23,14 +23,18 @@ def cancelled (cancelAt : Option Nat) (i : Nat) : Bool :=
   | none => false
   | some j => j ≤ i
 
-/-- the second-phase loop `for bf.Ongoing() { send; if err == nil break; bf.Wait() }`.
-    `retries = 0` means unbounded (backoff semantics).  The script lists the coordinator's behaviour
-    per attempt; when it runs out the context is cancelled (the harness does exactly that).
+/-- how often a second-phase request is sent at most (`secondPhaseAttempts`): the configured count, and
+    once when that count is zero -/
+def attempts (retries : Nat) : Nat := if retries = 0 then 1 else retries
+
+/-- the second-phase loop `for bf.Ongoing() { send; if err == nil break; bf.Wait() }` with
+    `MaxRetries = attempts retries`.  The script lists the coordinator's behaviour per attempt; when it
+    runs out the context is cancelled (the harness does exactly that).
     Returns (number of requests sent, how the loop ended). -/
 def phase2 (retries : Nat) (cancelAt : Option Nat) : Nat → List Reply → Nat × P2
   | i, script =>
     if cancelled cancelAt i then (0, .cancelled)
-    else if retries ≠ 0 ∧ retries ≤ i then (0, .exhausted)
+    else if attempts retries ≤ i then (0, .exhausted)
     else match script with
       | [] => (0, .cancelled)
       | .ok :: _ => (1, .acked)
@@ -39,12 +43,39 @@ def phase2 (retries : Nat) (cancelAt : Option Nat) : Nat → List Reply → Nat 
         let r := phase2 retries cancelAt (i + 1) rest
         (r.1 + 1, r.2)
 
+/-- the loop before the repair of finding C04-retry-zero-unbounded: the configured count went to the
+    backoff as it was, and the backoff takes zero for "retry for ever" -/
+def phase2BeforeFix (retries : Nat) (cancelAt : Option Nat) : Nat → List Reply → Nat × P2
+  | i, script =>
+    if cancelled cancelAt i then (0, .cancelled)
+    else if retries ≠ 0 ∧ retries ≤ i then (0, .exhausted)
+    else match script with
+      | [] => (0, .cancelled)
+      | .ok :: _ => (1, .acked)
+      | .failed :: _ => (1, .refused)
+      | .transport :: rest =>
+        let r := phase2BeforeFix retries cancelAt (i + 1) rest
+        (r.1 + 1, r.2)
+
 def decision (cb : Outcome) : Req := if cb = .ok then .commit else .rollback
 
 /-- WithGlobalTx for a launcher, as the code stands at HEAD (after the `fix:` commits).
-    Known finding C04-refused-commit: a commit reply whose result code is Failed is not looked at
-    (GlobalTransactionManager.Commit only reads GlobalStatus), so it still counts as success. -/
+    A reply `.ok` is an ACKNOWLEDGEMENT in the sense of `commitRefusal`: result code Success with a status
+    outside the rollback family, or any reply whose status says the commit is decided (Committing,
+    CommitRetrying, AsyncCommitting, Committed).  A reply `.failed` is anything else the coordinator answers:
+    result code Failed without such a status, or a status of the rollback family. -/
 def withGlobalTx (retries : Nat) (beginReply : Reply) (cb : Outcome) (script : List Reply)
+    (cancelAt : Option Nat) : List Req × Ret :=
+  match beginReply with
+  | .ok =>
+    let r := phase2 retries cancelAt 0 script
+    (.begin :: List.replicate r.1 (decision cb),
+     if cb = .ok ∧ r.2 = .acked then .ok else .err)
+  | _ => ([.begin], .err)
+
+/-- before the repair of finding C04-refused-commit: the commit reply's result code and status were stored
+    and not looked at, so a refusal still counted as success -/
+def withGlobalTxBeforeFix (retries : Nat) (beginReply : Reply) (cb : Outcome) (script : List Reply)
     (cancelAt : Option Nat) : List Req × Ret :=
   match beginReply with
   | .ok =>
